@@ -651,6 +651,47 @@ def signed(v, ty):
 COMMUTATIVE = {"Add", "Mul", "BitAnd", "BitOr", "BitXor", "Eq", "Ne"}
 
 
+def fold_const(e):
+    """value of a constant expression (`MAX - 1`, `1 << BITS`), None when it is not one"""
+    e = strip(e)
+    if e[0] == "const" and isinstance(e[1], int):
+        return e[1]
+    if e[0] == "cast":
+        return fold_const(e[1])
+    if e[0] == "bin":
+        a, b = fold_const(e[2]), fold_const(e[3])
+        if a is None or b is None:
+            return None
+        try:
+            return {"Add": a + b, "Sub": a - b, "Mul": a * b, "Shl": a << b, "Shr": a >> b, "BitAnd": a & b, "BitOr": a | b}.get(e[1])
+        except Exception:
+            return None
+    return None
+
+
+def _pat_value(p):
+    if p[0] == "v":
+        return p[1]
+    if p[0] == "named" and len(p) > 2:
+        return p[2]
+    return None
+
+
+def _pow2_alt(e, pat, env):
+    """unsigned arithmetic with a power of two written with shifts and masks: x / 2^k = x >> k, x % 2^k = x & (2^k - 1), x * 2^k = x << k"""
+    c = _pat_value(pat[3])
+    if c is None or c <= 0 or c & (c - 1):
+        return False
+    k = c.bit_length() - 1
+    if pat[1] == "Div" and e[1] == "Shr":
+        return fold_const(e[3]) == k and match(e[2], pat[2], env)
+    if pat[1] == "Mul" and e[1] == "Shl":
+        return fold_const(e[3]) == k and match(e[2], pat[2], env)
+    if pat[1] == "Rem" and e[1] == "BitAnd":
+        return (fold_const(e[3]) == c - 1 and match(e[2], pat[2], env)) or (fold_const(e[2]) == c - 1 and match(e[3], pat[2], env))
+    return False
+
+
 def match(e, pat, env=None):
     """structural match of expression `e` against pattern `pat` (casts/refs on `e` are looked through).
     patterns: ('param', name) ('v', int) ('named', suffix[, int]) ('bin', op, p, q) ('call', suffix, [p..])
@@ -678,6 +719,8 @@ def match(e, pat, env=None):
     if k == "named":
         return const_named(e, pat[1]) and (len(pat) < 3 or e[1] == pat[2])
     if k == "bin":
+        if e[0] == "bin" and e[1] != pat[1] and pat[1] in ("Div", "Rem", "Mul") and _pow2_alt(e, pat, env):
+            return True
         if e[0] != "bin" or e[1] != pat[1]:
             return False
         if match(e[2], pat[2], env) and match(e[3], pat[3], env):
